@@ -299,7 +299,7 @@ class Check:
         h = hashlib.sha256(json.dumps(obj, sort_keys=True, default=str).encode()).hexdigest()[:12]
         rdir = os.path.join(VERIF, "replays")
         if os.path.realpath(REPO) != "/repo":
-            rdir = os.path.join(self.work, "replays")
+            rdir = os.path.join(VERIF, ".work", "replays-scratch")   # not inside self.work: that is wiped at the next run
             os.makedirs(rdir, exist_ok=True)
         p = os.path.join(rdir, "%s-%s.json" % (self.pid, h))
         json.dump(obj, open(p, "w"), indent=1, default=str)
